@@ -142,7 +142,15 @@ fn scripts_for(prop: &str, tier: Tier) -> Vec<(String, Vec<Action>)> {
             h.push(send(s, subscribe_event(Some(3), cid(IdKind::Svc, 0), 1)));
             h.push(send(s, create_channel_sender(4)));
             h.push(send(r, claim_receiver(5, cid(IdKind::Chan, 0), 100)));
+            if *a >= 20 {
+                // a byte string in two chunks, as a VecDeque whose ring buffer wrapped is encoded
+                h.push(send(s, send_item(cid(IdKind::Chan, 0), vec![44, 2, 1, 2, 3, 3, 4, 5, 0])));
+                h.push(send(s, call_function(9, cid(IdKind::Svc, 0), 1, vec![43, 1, 44, 1, 9, 2, 8, 7, 0, 0])));
+                h.push(send(r, call_function_reply(crate::sym::bserial(0), 0, enc(&corpus[1], *b))));
+            }
+            let base = if *a >= 20 { 1 } else { 0 };
             for (i, val) in corpus.iter().enumerate() {
+                let i = i + base;
                 h.push(send(s, call_function(0, cid(IdKind::Svc, 0), 1, enc(val, *a))));
                 h.push(send(r, call_function_reply(crate::sym::bserial(i as u32), (i % 2) as u8, enc(val, *b))));
                 h.push(send(r, emit_event(cid(IdKind::Svc, 0), 1, enc(val, *b))));
